@@ -98,8 +98,9 @@ func evaluate(h *history, o *outcome) []violation {
 			// (2) absent a crash, an acknowledged Stop is never sent again
 			if fa, ok := firstAckStop[e.SID]; ok && e.Crashes == 0 && !dupDone[e.SID] {
 				dupDone[e.SID] = true
-				sig := "C08/dup-stop/live"
-				if e.Epoch != st.endEpoch {
+				// shape: who sent the later copy, and was the earlier one still in flight (latency_test.go)
+				sig := "C08/dup-stop/live/" + dupShape(fa, e)
+				if e.Epoch != fa.Epoch {
 					// re-sent by a later incarnation after a graceful stop + restart
 					left := "no-session-file"
 					if sn := snapFor(st.endEpoch + 1); sn != nil && sn.SessionFiles[e.SID] {
@@ -131,7 +132,7 @@ func evaluate(h *history, o *outcome) []violation {
 		}
 		if at, ok := firstAckStart[sp.ID]; ok {
 			how := "start-not-attempted"
-			if failedBefore(o.log, sp.ID, e.Seq) {
+			if failedBefore(o, sp.ID, e) {
 				how = "start-failed-earlier"
 			}
 			add("C08/stop-before-start/"+how, "%v was accepted before the session's Start (first accepted at #%d)", e, at)
@@ -169,9 +170,16 @@ func evaluate(h *history, o *outcome) []violation {
 	return vs
 }
 
-func failedBefore(log []rec, sid string, seq int) bool {
-	for _, e := range log {
-		if e.Seq < seq && e.SID == sid && e.Type == tStart && !e.Accepted {
+// failedBefore: a Start of the session failed before Stop record `stop` arrived — it was answered "down",
+// or it was lost on the way (latency >= client timeout: the server never saw it).
+func failedBefore(o *outcome, sid string, stop rec) bool {
+	for _, e := range o.log {
+		if e.Seq < stop.Seq && e.SID == sid && e.Type == tStart && !e.Accepted {
+			return true
+		}
+	}
+	for _, sr := range o.sends {
+		if sr.SID == sid && sr.Site == "start" && sr.Lost && (stop.Send == nil || sr.End <= stop.Send.End) {
 			return true
 		}
 	}
